@@ -132,16 +132,25 @@ func checkCrash(c *crashCase, ref *RefRun, dir string) string {
 		hv := &atomic.Value{}
 		var syncing int32
 		var seq int64
+		var nodeRef *Node
 		hv.Store(SQLHook(func(ev *SQLEvent) error {
 			if ev.After || atomic.LoadInt32(&syncing) == 0 {
 				return nil
 			}
 			if atomic.AddInt64(&seq, 1) == c.Point.Seq {
+				if c.Point.Mode == "cancel" {
+					// a graceful stop arrives right before this statement: the block in progress fails
+					if nodeRef != nil {
+						nodeRef.StopSync()
+					}
+					return nil
+				}
 				return errors.New("verif: injected SQL error")
 			}
 			return nil
 		}))
 		n, err := OpenNode(db, c.Sc.Era, c.Sc.Chain, NodeOpts{WAL: c.WAL, SQLHook: hv})
+		nodeRef = n
 		if err != nil {
 			return "harness: " + err.Error()
 		}
@@ -215,6 +224,10 @@ func TestC02(t *testing.T) {
 					st.Exclude(p.Site)
 				} else {
 					pts = append(pts, crashPoint{Seq: p.Seq, Mode: "error", Desc: desc, H: p.Height})
+				}
+				if p.Seq%3 == 0 {
+					// "the daemon is told to stop": the context of the sync loop is cancelled right before this statement
+					pts = append(pts, crashPoint{Seq: p.Seq, Mode: "cancel", Desc: desc, H: p.Height})
 				}
 			}
 		}
